@@ -11,7 +11,11 @@ namespace BitSerializer::Detail
 	class CBinaryStreamReader
 	{
 	public:
+#if defined(BITSERIALIZER_VERIF) && defined(BITSERIALIZER_VERIF_CHUNK_SIZE)
+		static constexpr size_t chunk_size = BITSERIALIZER_VERIF_CHUNK_SIZE;	// verification hook: small cache, so that short documents cross many refill boundaries
+#else
 		static constexpr size_t chunk_size = 256;
+#endif
 
 		explicit CBinaryStreamReader(std::istream& inputStream);
 		CBinaryStreamReader(const CBinaryStreamReader&) = delete;
